@@ -46,6 +46,7 @@ def run(ctx):
     U.rule_qsl(ctx, "R5")
     default_protocol(ctx, "R6", n)
     redirection_sees_decoded_letters(ctx, "R8")
+    Q.rule_space(ctx, "R9")
 
 
 def default_protocol(ctx, rule, n):
@@ -297,8 +298,31 @@ def redirection_sees_decoded_letters(ctx, rule):
                     subject = op[2][0]
                     if (op[0], subject) not in [(a, b) for a, b, _ in sites]:
                         sites.append((op[0], subject, x))
+    # the plain-text inspections of the url (`'/url?q=' in url`, startswith ...) read the same decoded text as the patterns
+    n_text = 0
+    for r in rets:
+        for t in [r.term] + [c for c, _ in r.conds]:
+            for x in P.subterms(t):
+                subject = None
+                if x[0] == "cmp" and x[1] == "In" and x[2][0] == "const" and isinstance(x[2][1], str):
+                    subject = x[3]
+                elif x[0] == "method" and x[1] in ("startswith", "endswith", "find", "index", "count") and x[3] and x[3][0][0] == "const":
+                    subject = x[2]
+                if subject is None or not F.find_nodes(subject, lambda y: y == url, data_only=True):
+                    continue
+                if F.find_nodes(subject, lambda y: y[0] == "call" and y[1] in ("urllib.parse.unquote",), data_only=True):
+                    continue  # an extracted target, not the url
+                n_text += 1
+                bad = F.unguarded_paths(subject, lambda y: y == url, decodes_letters)
+                ctx.ob(rule, "infer_redirection/text-test/%s" % P.show(x, maxdepth=2)[:50], not bad,
+                       "infer_redirection tests `%s` on the url as written while its key pattern reads the letter-decoded text: 'google.com/%%75rl?q=...' passes one test and fails the other, so the url and its canonical form are resolved differently" % P.show(x, maxdepth=3),
+                       site, witness="https://www.google.com/%75rl?q=http://target.org/page")
     ctx.require_instances(rule, len(sites), 2, "pattern applications in infer_redirection")
+    ctrl = F.is_regex_sub("ural.patterns.CONTROL_CHARS_RE", "")
     for pat, subject, x in sites:
+        ctx.ob(rule, "infer_redirection/%s/searched-text-has-controls-removed" % pat.rpartition(".")[2], not F.unguarded_paths(subject, lambda y: y == url, ctrl),
+               "infer_redirection applies %s to text that may still hold control characters: '?u\\x00rl=http://y.com' hides the key 'url' from normalize_url but not from canonicalize_url followed by normalize_url" % pat.rpartition(".")[2],
+               site, witness="http://x.com/?u\x00rl=http://y.com/p")
         bad = F.unguarded_paths(subject, lambda y: y == url, decodes_letters)
         ctx.ob(rule, "infer_redirection/%s/searched-text-has-letters-decoded" % pat.rpartition(".")[2], not bad,
                "infer_redirection applies %s to the url as written: '?%%75rl=http://y.com' hides the key 'url' until canonicalize_url has decoded it, so normalize_url(canonicalize_url(u)) follows a redirection that normalize_url(u) does not see" % pat.rpartition(".")[2],
